@@ -142,8 +142,11 @@ class PythonRegex(regex.Regex):
             elif symbol == "]" and in_brackets >= 1 and not self._should_escape_next_symbol(in_brackets_temp[-1]):
                 if len(in_brackets_temp) == 1:
                     regex_temp.append("(")
-                    regex_temp += self._preprocess_brackets_content(
+                    content = self._preprocess_brackets_content(
                         in_brackets_temp[-1])
+                    # A set that nothing belongs to is the empty language,
+                    # also when a quantifier follows
+                    regex_temp += content or ["()"]
                     regex_temp.append(")")
                 else:
                     in_brackets_temp[-2].append(
